@@ -98,6 +98,32 @@ def task(t):
             if names != sorted([stem + ".npz", os.path.basename(sib) + ".npz"]):
                 fails.append("save(%r) / save(%r) left the files %s" % (stem, os.path.basename(sib), names))
             y = mg.load(path + ".npz")
+        elif via == "named_tempfile":
+            # tempfile.NamedTemporaryFile hands out a wrapper object that is not an io.IOBase instance: file objects are recognised by duck typing
+            with tempfile.NamedTemporaryFile(dir=tmp, suffix=".npz") as f:
+                mg.save(f, x)
+                f.seek(0)
+                y = mg.load(f)
+        elif via == "duck":
+            class _F:       # a hand-written binary file object
+                def __init__(self):
+                    self._b = io.BytesIO()
+                def write(self, data):
+                    return self._b.write(data)
+                def read(self, *a):
+                    return self._b.read(*a)
+                def seek(self, *a):
+                    return self._b.seek(*a)
+                def tell(self):
+                    return self._b.tell()
+                def flush(self):
+                    return self._b.flush()
+                def seekable(self):
+                    return True
+            f = _F()
+            mg.save(f, x)
+            f.seek(0)
+            y = mg.load(f)
         elif via == "path":
             path = pathlib.Path(tmp) / "t.npz"
             mg.save(path, x)
